@@ -81,7 +81,9 @@ ENTRIES = {
             "built by append, by assignment, by the constructor from a plain collection and by the constructor from another "
             "instance's managed field, run on the real descriptors; after every operation the field must equal "
             "what Python does to a plain list/set (order and repetitions included) and the graph and all inverse/super "
-            "fields must contain the closure of the current elements.",
+            "fields must contain the closure of the current elements. A second family starts from contents INFERRED through the "
+            "inverse property, runs every prefix of <=2 (thorough 3) operations incl. removals and then writes one more element "
+            "in every equivalent way (7 for lists, 5 for sets): all ways must leave the same contents.",
             "Retraction (removal of consequences of elements that left the field) is outside the statement and not checked.",
             "DESIGN.md section 3 C16"),
     "C20": ("model_checking",
